@@ -132,6 +132,8 @@ type unheldRelease struct {
 	At    ssa.Instruction // the Unlock call, or the RunDefers that runs a deferred one
 	Defer *ssa.Defer      // the deferred call, if any
 	Class string
+	// Some: held on some paths reaching the release but not on all (otherwise: on none)
+	Some bool
 }
 
 type defEntry struct {
@@ -218,6 +220,8 @@ func analyseLocks(fn *ssa.Function, entry LockSet) *FnLocks {
 					}
 					if !op.Acquire && op.Known && st.may.HoldsClass(op.Class) == 0 {
 						unheld[unheldKey{x, nil}] = unheldRelease{At: x, Class: op.Class}
+					} else if !op.Acquire && op.Known && st.must.HoldsClass(op.Class) == 0 {
+						unheld[unheldKey{x, nil}] = unheldRelease{At: x, Class: op.Class, Some: true}
 					} else if !op.Acquire {
 						delete(unheld, unheldKey{x, nil})
 					}
@@ -246,6 +250,8 @@ func analyseLocks(fn *ssa.Function, entry LockSet) *FnLocks {
 					if d.isLock {
 						if d.op.Known && st.may.HoldsClass(d.op.Class) == 0 {
 							unheld[unheldKey{x, d.at}] = unheldRelease{At: x, Defer: d.at, Class: d.op.Class}
+						} else if d.op.Known && st.must.HoldsClass(d.op.Class) == 0 {
+							unheld[unheldKey{x, d.at}] = unheldRelease{At: x, Defer: d.at, Class: d.op.Class, Some: true}
 						} else {
 							delete(unheld, unheldKey{x, d.at})
 						}
